@@ -18,9 +18,10 @@ RULE = ("EqualWeighter (base_value grid), StdWeighter, EntropyWeighter (positive
         "incoming weights) must give every named criterion the same weight; matrix and objectives bit-identical. "
         "non-trivial = >=2 criteria and the weights are not all equal; distinct by hash")
 
-KF = "C13-critic-single-criterion-nan"
-KF_TEXT = ("CRITIC on a matrix with a single criterion returns a NaN weight (0/0: the only (1 - correlation) term is "
-           "0) instead of a non-negative weight summing to 1")
+KF = "C13-critic-all-correlated-nan"
+KF_TEXT = ("CRITIC returns NaN weights when every criterion is perfectly correlated with every other one - in "
+           "particular for a single criterion - (all (1 - correlation) terms are 0, so the normalisation is 0/0) "
+           "instead of non-negative weights summing to 1")
 NAMES = ["EqualWeighter", "StdWeighter", "EntropyWeighter", "CRITIC"]
 
 
@@ -144,11 +145,18 @@ def conditioning(case):
     return 1e-11 / max(worst, 1e-6) ** 2
 
 
+CORPUS = [
+    {"matrix": [[1.0], [2.0], [4.0]], "objectives": [1], "weights": [1.0], "weights2": [2.0], "perm_r": [2, 0, 1],
+     "perm_c": [0], "alternatives": ["a", "b", "c"], "criteria": ["x"], "mode": "int",
+     "tf": {"cls": "CRITIC", "params": {"correlation": "pearson", "scale": True}, "kind": 5}},
+]
+
+
 def run(ctx):
     I.repo_check()
     ctx.rule = RULE
     per = ctx.n(110, 2000)
-    cases = [gen_case(ctx.rng, name) for name in NAMES for _ in range(per)]
+    cases = [dict(c) for c in CORPUS] + [gen_case(ctx.rng, name) for name in NAMES for _ in range(per)]
     outs = I.pmap(run_impl, cases)
     calls = []
     for c in cases:
@@ -169,14 +177,15 @@ def run(ctx):
             continue
         w = o1["after"]["weights"]
         m = len(w)
-        if name == "CRITIC" and m == 1:
-            # every (1 - r) term is 0: the published formula is 0/0
+        want = published(c)
+        if want is None:
+            # CRITIC with every criterion perfectly correlated with every other (in particular a single
+            # criterion): every (1 - r) term is 0 and the published formula is 0/0
+            ctx.count("critic_formula_0_over_0")
+            ctx.case_seen(c, False)
             if all(x != x for x in w):
                 if not ctx.known_finding(KF, KF_TEXT):
-                    ctx.oracle_fail(c, {"oracle": "CRITIC on a single criterion returns a NaN weight"})
-            elif w != [1.0]:
-                ctx.oracle_fail(c, {"oracle": f"CRITIC on a single criterion returns {w}"})
-            ctx.case_seen(c, False)
+                    ctx.oracle_fail(c, {"oracle": "CRITIC returns NaN weights"})
             continue
         ctx.case_seen(c, m >= 2 and len(set(w)) > 1)
         tol = conditioning(c)
@@ -188,10 +197,6 @@ def run(ctx):
         if not o1["matrix_bits_equal"] or o1["before"]["objectives"] != o1["after"]["objectives"]:
             ctx.oracle_fail(c, {"oracle": "matrix or objectives changed by a weighter"})
         # published formula (independent) and model cores
-        want = published(c)
-        if want is None:
-            ctx.count("degenerate_formula_0_over_0")
-            continue
         for j in range(m):
             if abs(D(w[j]) - want[j]) > D(tol) * (1 + abs(want[j])):
                 ctx.oracle_fail(c, {"oracle": f"weight of criterion {c['criteria'][j]} is {w[j]!r} but the "
